@@ -22,6 +22,9 @@ var (
 	emptyRequest = []byte(`{}`)
 )
 
+// Largest timeout, in milliseconds, that fits in a time.Duration.
+const maxTimeoutMs = int64(1<<63-1) / int64(time.Millisecond)
+
 var (
 	errUnexpectedEnd     = errors.New("unexpected end of JSON input")
 	errUnexpectedBracket = errors.New("unexpected character '[' looking for beginning of primitive value or data value object")
@@ -401,7 +404,14 @@ func SendRequest(nc res.Conn, subject string, req interface{}, timeout time.Dura
 				if ms, err := strconv.Atoi(v); err == nil {
 					// Stop previous timer and make a new one.
 					timer.Stop()
-					d := time.Duration(ms) * time.Millisecond
+					// Limit the timeout to what a time.Duration can hold.
+					ms64 := int64(ms)
+					if ms64 > maxTimeoutMs {
+						ms64 = maxTimeoutMs
+					} else if ms64 < -maxTimeoutMs {
+						ms64 = -maxTimeoutMs
+					}
+					d := time.Duration(ms64) * time.Millisecond
 					timer = time.NewTimer(d)
 					for _, f := range onTimeoutExtend {
 						f(d)
